@@ -26,13 +26,21 @@ def gen_scenario(rng):
     ndefs = 0
     K = []
     defs = []
+    skel = []  # plain classes with the same bases: Python's own verdict on the base lists
     for i in range(ncls):
         bases = []
         if i > 0:
             k = rng.choice([1, 1, 1, 2, 2, 3, 3])
             bases = sorted(rng.sample(range(i), min(k, i)))
-            # a consistent MRO: put more derived classes first
+            # a consistent MRO: put more derived classes first ...
             bases.sort(reverse=True)
+            # ... and keep only base lists Python itself can linearise (C3): the same statement over plain classes
+            while True:
+                try:
+                    type("S", tuple(skel[b] for b in bases), {})
+                    break
+                except TypeError:
+                    bases = bases[:-1]
         plain = i > 0 and not bases and False
         mixin = rng.random() < 0.2  # a plain class without the metaclass
         nd = rng.choice([0, 1, 1, 2, 2, 3])
@@ -52,6 +60,7 @@ def gen_scenario(rng):
         is_mixin = mixin and not bases
         # (@extend_super on a class without overloaded bases is legal: the decorated function stays the attribute, flag
         # included, and a later class listing it as a second or third base merges it)
+        skel.append(type(f"S{i}", tuple(skel[b] for b in bases), {}))
         K.append({"bases": bases, "mixin": is_mixin, "defs": own, "extend": bool(own) and not is_mixin and rng.random() < (0.6 if bases else 0.35),
                   # @extend_super written on a later same-named definition of the body as well / instead
                   # (a marker on a later same-named definition changes nothing: that definition is mixed in on top of
